@@ -51,9 +51,11 @@ FILE_NAMES = ["m.mdl", 'a"b.mdl', "c{d|e}.mdl", "x<y>.mdl", "back\\slash.mdl", "
 
 
 class ModelGen:
-    def __init__(self, r, dup=0.0):
+    def __init__(self, r, dup=0.0, cross=False):
         self.r = r
         self.values = []
+        self.cross = cross      # references may name things of the other files of the case
+        self.allnames = []
         self.dup = dup      # chance to reuse an earlier value: distinct objects with equal attribute values
 
     def val(self):
@@ -74,6 +76,9 @@ class ModelGen:
         for i in range(n):
             nm = self.fresh()        # reference targets: the placeholder names must stay unique
             names.append(nm)
+            self.allnames.append(nm)
+            if self.cross:
+                names = self.allnames
             parts = ["thing", nm]
             if r.chance(0.4):
                 parts += ["title", self.val()]
@@ -150,8 +155,9 @@ SHAPES = [("value", 4), ("const", 2), ("unhashable", 2), ("falsy_len", 1), ("fal
 
 def gen_model_case(r, i):
     which = r.weighted([(1, 5), (2, 2), (3, 3)])
-    mode = r.weighted([("single", 5), ("repo", 3), ("generator", 2), ("globalrepo", 1)])
-    nfiles = r.range(1, 2) if mode in ("repo", "globalrepo") else 1
+    mode = r.weighted([("single", 5), ("repo", 3), ("generator", 2), ("globalrepo", 2)])
+    nfiles = r.range(1, 3) if mode in ("repo", "globalrepo") else 1
+    cross = mode == "globalrepo" and which == 1
     classes = []
     if r.chance(0.4):
         # user classes whose __eq__/__hash__/__bool__/__str__ differ from object's: the export must go by identity
@@ -159,7 +165,7 @@ def gen_model_case(r, i):
         for rule in r.sample(rules, r.range(1, len(rules))):
             shape = r.weighted(SHAPES)      # the root rule too: a falsy root model must still be exported
             classes.append({"rule": rule, "shape": shape})
-    g = ModelGen(r, dup=0.5 if classes else 0.0)
+    g = ModelGen(r, dup=0.5 if classes else 0.0, cross=cross)
     files = []
     names = r.shuffle(FILE_NAMES)
     for k in range(nfiles):
@@ -168,6 +174,8 @@ def gen_model_case(r, i):
     case = {"kind": "model", "grammar": {1: G1, 2: G2, 3: G3}[which], "files": files, "values": g.values, "mode": mode}
     if classes:
         case["classes"] = classes
+    if cross:
+        case["cross"] = True
     return case
 
 
@@ -375,6 +383,14 @@ def coq_store(objects):
     return core.coq_list(objs)
 
 
+def walk_expr(o):
+    """the modelled text of model_export: single model, or the repository path with one subgraph block per model"""
+    if o.get("repo_path"):
+        roots = core.coq_list(["(%d%%nat, %s)" % (k, cs(fn)) for k, fn in zip(o["roots"], o["root_files"])])
+        return "show_str (export_repo_doc %s export_header %s)" % (coq_store(o["objects"]), roots)
+    return "show_str (export_doc %s export_header %d%%nat)" % (coq_store(o["objects"]), o["roots"][0])
+
+
 def coq_classes(classes):
     kinds = {"common": "KCommon", "abstract": "KAbstract", "match": "KMatch"}
     mults = {"1": "M1", "0..1": "M01", "0..*": "M0s", "1..*": "M1s"}
@@ -473,7 +489,7 @@ def run(chk):
     for ch, os_ in zip(chunks, outs):
         for c, o in zip(ch, os_):
             kind = c["kind"] + ":" + c.get("mode", "")
-            if c["kind"] == "model" and c.get("mode") in ("single", "generator") and not o.get("exc") and not o.get("build_exc") and all(
+            if c["kind"] == "model" and not o.get("exc") and not o.get("build_exc") and all(
                     x["t"] != "obj" or x["id"] >= 0 for ob in o["objects"] for a in ob["attrs"] for x in (a["val"]["v"] if a["val"]["t"] == "list" else [a["val"]])):
                 if len(walk) < (400 if thorough else 60):
                     walk.append((c, o))
@@ -517,7 +533,7 @@ def run(chk):
     # ---- one Coq evaluation for both correspondences: dot_escape/dot_repr on the strings, and the traversal model on
     # the dumped object graphs (exact text of model_export for single models); interleaved so that shards are balanced
     exprs = [("s", k, "esc_case %s" % cs(s)) for k, s in enumerate(strings)]
-    exprs += [("w", k, "show_str (export_doc %s export_header %d%%nat)" % (coq_store(o["objects"]), o["roots"][0])) for k, (c, o) in enumerate(walk)]
+    exprs += [("w", k, walk_expr(o)) for k, (c, o) in enumerate(walk)]
     exprs += [("m", k, meta_expr(c, o)) for k, (c, o) in enumerate(metas)]
     groups = [exprs[i::core.NPROC] for i in range(core.NPROC)]
     order = [e for g in groups for e in g]
